@@ -112,6 +112,7 @@ var _ = vl.Less
 func vJSON(c *Set[int]) containers.VJSON {
 	return containers.VJSON{C: c, ToJSON: c.ToJSON, FromJSON: c.FromJSON,
 		Marshal: func() ([]byte, error) { return json.Marshal(c) },
+		Unmarshal: func(data []byte) error { return json.Unmarshal(data, c) },
 		Inv:     func() { VInv(c) },
 		Step:    func() { x := v.Int("sx"); c.Add(x); v.Assert(c.Contains(x), "C12:add-after-load") },
 		Fresh:   func() containers.VJSON { return vJSON(New[int]()) },
